@@ -57,6 +57,7 @@ func c15(r *core.Run) {
 	r.Rule("R1", "must-reply: every return of query request handling has replied (state Yes) whatever the callback does; the handler-runner's panics are recovered", 3)
 	r.Rule("G1", "group funnel: the listener forwards each request through enqueue with the resource's group, and the expiry enqueues the nil call with the resource's group", 2)
 	r.Rule("N1", "nil callback: cb(nil) is called directly only on the failed-subscribe edge (which publishes nothing and returns) and otherwise only inside the closure the expiry function enqueues; the expiry function is the timer queue's callback; the expiry drains the subscription before enqueueing", 5)
+	r.Rule("T1", "configured duration: the timer queue that expires query events is (re)built unconditionally in serve's initialisation, before the workers start, with the duration field that SetQueryEventDuration stores; a queue kept from a previous run would keep that run's duration", 1)
 	r.Rule("S1", "fresh subject, registered for expiry: the subject subscribed, the subject published in the query event and the NewInbox result are one value; on the success edge the query event is added to the timer queue on every path", 3)
 	r.Rule("C1", "per-iteration capture: a closure created in a loop does not capture a variable that the loop re-assigns (go.mod selects per-loop variable semantics)", 1)
 	r.Rule("L1", "listener termination: every goroutine started by the library that ranges over a channel has a close of that channel reachable in library code", 2)
@@ -209,6 +210,42 @@ func c15(r *core.Run) {
 				}
 			}
 		}
+	}
+	// T1: per-run timer queue with the configured duration
+	{
+		durF, okD := setterField(p, "", "Service", "SetQueryEventDuration", 0)
+		var firstGo ssa.Instruction
+		for _, c := range core.Calls(serve) {
+			if core.IsGo(c) && firstGo == nil {
+				firstGo = c
+			}
+		}
+		good, why := false, "no timerqueue.New in serve"
+		for _, c := range core.Calls(serve) {
+			cal := c.Common().StaticCallee()
+			if cal == nil || !strings.HasSuffix(cal.String(), "timerqueue.New") {
+				continue
+			}
+			argOK := false
+			if len(c.Common().Args) > 1 {
+				if f, ok := core.LoadedField(c.Common().Args[1]); ok && okD && f == durF {
+					argOK = true
+				}
+			}
+			stored := false
+			if c.Value() != nil && c.Value().Referrers() != nil {
+				for _, rf := range *c.Value().Referrers() {
+					if st, ok := rf.(*ssa.Store); ok {
+						if _, isF := core.FieldOf(st.Addr); isF && firstGo != nil && core.Dominates(st, firstGo) {
+							stored = true
+						}
+					}
+				}
+			}
+			good = argOK && stored
+			why = fmt.Sprintf("duration-arg-is-configured-field=%v stored-unconditionally-before-workers=%v", argOK, stored)
+		}
+		r.Check(good, "T1", core.FuncName(serve), "timer-queue-rebuilt-per-run-with-configured-duration", p.Pos(serve.Pos()), "every run builds its expiry queue from the configured duration before any worker starts", "the query-event expiry queue is not rebuilt unconditionally from the configured duration ("+why+"): after Shutdown, SetQueryEventDuration and a new Serve the old duration is still in force, so query events expire too early (late requests unanswered) or too late")
 	}
 	r.Check(tqOK, "N1", core.FuncName(serve), "expiry-is-the-timer-queue-callback", p.Pos(serve.Pos()), "the timer queue is created with the expiry function", "the timer queue's callback is not the expiry function")
 	// drain before enqueue
